@@ -170,9 +170,32 @@ class KllC07(Part):
             h += queries(s)
         return h
 
+    def merge_overflow_history(self, rng, tier):
+        """a target whose level 0 was just sorted by a query (flag set) takes, in one merge, enough unsorted level-0 items to overflow
+        level 0 PART-WAY through the merge loop: the compaction inside the loop must see an unsorted level 0"""
+        ty = rng.choice("iiids")
+        k = rng.choice([8, 8, 9, 12, 16])
+        h = ["consts", "cap 200 4", "coins " + "".join(rng.choice("01") for _ in range(400)), "new 0 %s %d" % (ty, k), "new 1 %s %d" % (ty, k)]
+        st = [Stream(rng, ty), Stream(rng, ty)]
+        na = rng.randrange(max(2, k // 2), k)          # below the level-0 capacity
+        nb = rng.randrange(k - 1, 2 * k)
+        for _ in range(na):
+            h.append("upd 0 %s" % st[0].next())
+        h += ["q 0 view", "q 0 quant %s 1" % U.f64hex(0.5)]
+        for _ in range(nb):
+            h.append("upd 1 %s" % st[1].next())
+        if rng.random() < 0.5:
+            h.append("q 1 view")
+        h.append("merge 0 1" + (" rv" if rng.random() < 0.3 else ""))
+        h += ["q 0 view", "q 0 quant %s 0" % U.f64hex(0.0), "q 0 quant %s 1" % U.f64hex(1.0)]
+        for _ in range(rng.choice([0, 3, k])):
+            h.append("upd 0 %s" % st[0].next())
+        h.append("q 0 view")
+        return h
+
     def generate(self, rng, tier):
         n = 100 if tier == "quick" else 250
-        return [self.one_history(rng, tier) for _ in range(n)]
+        return [self.one_history(rng, tier) for _ in range(n)] + [self.merge_overflow_history(rng, tier) for _ in range(12 if tier == "quick" else 80)]
 
     # ------------------------------------------------------------------ the property statement on one trace
     def oracle(self, hist, impl_out):
